@@ -637,6 +637,21 @@ class Interp:
     st_AsyncFunctionDef = st_ClassDef = st_FunctionDef
 
     def st_Assign(self, stmt, st, fr):
+        # `ok = self.helper(x)` ... `if ok:` decides like `if self.helper(x):`
+        if len(stmt.targets) == 1 and isinstance(stmt.targets[0], ast.Name):
+            inner, negated = stmt.value, False
+            if isinstance(inner, ast.UnaryOp) and isinstance(inner.op, ast.Not):
+                inner, negated = inner.operand, True
+            if isinstance(inner, ast.Call):
+                raised = []
+                decided = self._truth_inline(inner, st, fr, raised, 'test')
+                if decided is not None:
+                    results = []
+                    for truth, s in decided:
+                        self._store(stmt.targets[0], stmt.value, s, fr, stmt)
+                        s.facts[('truth', stmt.targets[0].id)] = bool(truth) != negated
+                        results.append((NORMAL, s))
+                    return results + raised
         sts, raised = self._simple([stmt.value], st, fr)
         for s in sts:
             for target in stmt.targets:
